@@ -18,7 +18,8 @@ WeakUnary(x)  == {<<w>> : w \in DeepW(x) \cup {DynVal}}
 WeakBinary(x, y) ==
      {<<w, y>> : w \in DeepW(x) \cup {DynVal}}
   \cup {<<x, w>> : w \in DeepW(y) \cup {DynVal}}
-  \cup (IF Thorough /\ IsPrimT(x.ty) /\ IsPrimT(y.ty)
+  \* (interval arithmetic on two bounded unknowns: the full product of the refinement menus also in the quick tier)
+  \cup (IF (Thorough \/ Api \in {"Add", "Subtract", "Multiply"}) /\ IsPrimT(x.ty) /\ IsPrimT(y.ty)
         THEN {<<w1, w2>> : w1 \in Full1(x), w2 \in Full1(y)}
         ELSE {<<w1, w2>> : w1 \in Lite1(x), w2 \in Lite1(y)})
 WeakTuples(a) == IF Len(a) = 1 THEN WeakUnary(a[1]) ELSE WeakBinary(a[1], a[2])
